@@ -2,6 +2,9 @@
 #pragma once
 #include "session.h"
 
+// tolerances per bucket of target bytes per frame: <5, <10, <20, <40, <80, >=80  (see calib/thresholds.json)
+#define CVBR_TOL_CELT 0.65, 0.42, 0.22, 0.12, 0.06, 0.05
+#define CVBR_TOL_SILK 2.40, 2.40, 2.40, 2.40, 2.40, 2.40
 struct LockstepExec {
   Run &run; std::string prop;
   Session S;
@@ -22,27 +25,26 @@ struct LockstepExec {
   void cvbr_close() {
     if (!check_rate || seg_secs < 5.0 || !S.enc.alive()) return;
     double ratio = seg_bits / seg_secs / (double)m_bitrate;
-    const char *fam = seg_mode_mask == 4 ? "celt" : (seg_mode_mask & 4) ? "mixed" : "silkhyb";
+    const char *fam = seg_mode_mask == 4 ? "celt" : "silkhyb";   // any SILK / hybrid packet in the segment -> SILK's looser rate control applies
+    double bpf = m_bitrate * (seg_secs / seg_frames) / 8;     // target bytes per frame
+    const char *bucket = bpf < 5 ? "lt5" : bpf < 10 ? "lt10" : bpf < 20 ? "lt20" : bpf < 40 ? "lt40" : bpf < 80 ? "lt80" : "ge80";
     run.count(std::string("cvbr_segments_") + fam);
     long milli = (long)(ratio * 1000);
-    std::string k = std::string("max:cvbr_ratio_milli_") + fam;
+    std::string k = std::string("max:cvbr_ratio_milli_") + fam + "_" + bucket;
     if (run.stat[k] < milli) run.stat[k] = milli;
-    if (getenv("OPSIM_CALIB")) fprintf(stderr, "CVBRSEG %s ratio=%.4f bitrate=%d fs=%d ch=%d frames=%ld secs=%.2f bytes_per_frame=%.1f\n", fam, ratio, m_bitrate, S.enc.L.fs, S.enc.L.ch, seg_frames, seg_secs, m_bitrate * (seg_secs / seg_frames) / 8);
-    double bpf = m_bitrate * (seg_secs / seg_frames) / 8;     // target bytes per frame
+    if (getenv("OPSIM_CALIB")) fprintf(stderr, "CVBRSEG %s ratio=%.4f bitrate=%d fs=%d ch=%d frames=%ld secs=%.2f bytes_per_frame=%.1f\n", fam, ratio, m_bitrate, S.enc.L.fs, S.enc.L.ch, seg_frames, seg_secs, bpf);
     double tol = cvbr_tolerance(fam, bpf);
-    if (tol < 0) return;                                       // below the calibrated precondition
     run.count("cvbr_checked");
     if (ratio > 1.0 + tol)
-      REPORT(run, prop, std::string("cvbr_longterm_rate_exceeded_") + fam, "mean %.0f b/s over %.1f s vs target %d (ratio %.3f > %.3f)", seg_bits / seg_secs, seg_secs, m_bitrate, ratio, 1.0 + tol);
+      REPORT(run, prop, std::string("cvbr_longterm_rate_exceeded_") + fam, "mean %.0f b/s over %.1f s vs target %d (ratio %.3f > %.3f, %.1f target bytes/frame)", seg_bits / seg_secs, seg_secs, m_bitrate, ratio, 1.0 + tol, bpf);
   }
+  // calibrated on the unchanged tree (calib/thresholds.json, C05.cvbr): tolerance = at least twice the worst excess observed per
+  // (mode family, target bytes per frame) bucket. CELT has a true bit reservoir; SILK / hybrid only steer towards the target.
   static double cvbr_tolerance(const char *fam, double bpf) {
-    // calibrated on the unchanged tree, see calib/thresholds.json (C05.cvbr): precondition target >= 40 bytes/frame
-    if (bpf < 40) return -1;
-    if (bpf >= 80) return 0.05;
-    if (!strcmp(fam, "celt")) return 0.06;
-    return 0.25;
+    static const double celt[6] = {CVBR_TOL_CELT}, silk[6] = {CVBR_TOL_SILK};
+    int b = bpf < 5 ? 0 : bpf < 10 ? 1 : bpf < 20 ? 2 : bpf < 40 ? 3 : bpf < 80 ? 4 : 5;
+    return !strcmp(fam, "celt") ? celt[b] : silk[b];
   }
-
   void op_ctl(const Op &op) {
     if (!S.enc.alive()) return;
     int req = (int)op.arg(0), val = (int)op.arg(1);
